@@ -150,9 +150,18 @@ pub fn run(args: &[String]) {
         let pipelined = c["pipelined"].as_bool().unwrap();
         let want_exit = c["exit"].as_str().unwrap();
         let salt = format!("{}{}", ci, if pipelined { "p" } else { "s" });
-        let conc: Vec<(Value, Vec<Value>, String)> = reqs.iter().enumerate().map(|(i, r)| concretise_paced(r, i + 1, &salt, abandon)).collect();
+        // the upgraded service speaks first
+        let greet = c["greet"] == json!(true);
+        let conc: Vec<(Value, Vec<Value>, String)> = reqs.iter().enumerate().map(|(i, r)| {
+            let (mut q, rs, tok) = concretise_paced(r, i + 1, &salt, abandon);
+            if greet && r["k"] == "upgrade" && q["method"] == "org.example.script.Run" {
+                q["parameters"]["script"] = json!(["r", "u", "g"]);
+            }
+            (q, rs, tok)
+        }).collect();
         // who ends an upgraded session: the client (closes its side) or the service (asked to say goodbye and hang up)
         let service_ends = c["upEnd"] == "service" && payload_n > 0;
+
         let payload: Vec<u8> = if payload_n > 0 { format!("PAYLOAD-{}-first\nPAYLOAD-{}-second\n{}", salt, salt, if service_ends { "HANGUP\n" } else { "" }).into_bytes() } else { Vec::new() };
         let mut cmd = Command::new(&bin);
         let variant;
@@ -319,6 +328,12 @@ pub fn run(args: &[String]) {
             let have = up_tok.as_ref().and_then(|t| log_of_up.lock().unwrap().up_rx.get(t).cloned()).unwrap_or_default();
             if have != payload {
                 problem = Some(format!("upgraded service received {:?}, the client sent {:?}", lossy(&have), lossy(&payload)));
+            }
+        }
+        if problem.is_none() && greet && c["hello"].as_u64().unwrap_or(0) == 1 {
+            let hello = format!("HELLO-{}\n", up_tok.clone().unwrap_or_default());
+            if !String::from_utf8_lossy(&rest).contains(&hello) {
+                problem = Some(format!("the upgraded service said {:?} right behind its reply, the client received {:?}", hello, lossy(&rest)));
             }
         }
         if problem.is_none() && service_ends && upgrade_reached {
